@@ -13,7 +13,19 @@ UNDECIDED = ["serde_json escaping / round trip (trusted)"]
 TRUSTED = ["rustc nightly MIR + Instance::try_resolve", "serde / serde_json", "log-mdc"]
 
 ENCODE = "<encode::json::JsonEncoder as encode::Encode>::encode"
-MESSAGE = "encode::json::Message"
+import re as _re
+
+
+def message_adt(p):
+    """role: the one struct of the JSON encoder's module with a derived Serialize impl (the record as it is written out)"""
+    names = set()
+    for g in p.fns:
+        m = _re.match(r"encode::json::_::<impl serde_core::ser::Serialize for (encode::json::[A-Za-z0-9_]+)", g)
+        if m:
+            names.add(m.group(1))
+    if len(names) != 1:
+        raise AnchorMissing("expected one struct with a derived Serialize in encode::json, found %s" % sorted(names))
+    return names.pop()
 KEYS = ["time", "level", "message", "module_path", "file", "line", "target", "thread", "thread_id", "mdc"]
 SKIPPABLE = {"module_path", "file", "line"}
 ACCESSORS = {"level": "log::Record::<'a>::level", "message": "log::Record::<'a>::args", "module_path": "log::Record::<'a>::module_path", "file": "log::Record::<'a>::file",
@@ -22,7 +34,7 @@ ACCESSORS = {"level": "log::Record::<'a>::level", "message": "log::Record::<'a>:
 
 def inner_fn(p):
     """role: the function constructing the Message aggregate"""
-    fs = sorted({a[0].path for a in p.aggregates(MESSAGE) if "Derive" not in (a[0].d.get("exp") or "")})
+    fs = sorted({a[0].path for a in p.aggregates(message_adt(p)) if "Derive" not in (a[0].d.get("exp") or "")})
     if len(fs) != 1:
         raise AnchorMissing("expected one function building the JSON Message, found %s" % fs)
     return p.fn(fs[0])
@@ -88,10 +100,10 @@ def run_cfg(ctx, p, cfg):
                 nl = deep_strip(nl[2][0])
             r.require(nl == ("const", "str", "\n") or nl == ("const", "str", "\r\n"), "terminator-is-NEWLINE", fn=f, site=w.at, detail="written bytes: %s" % show(nl))
             r.require(common.result_is_checked(f, w, strict=True) and common.result_is_checked(f, s, strict=True), "errors-propagated", fn=f, detail="serialize and write_all Results are propagated")
-            r.require(any(x[0] == "agg" and x[1] == MESSAGE for x in walk(s.arg(0))), "serializes-the-message", fn=f, detail="serialized value is the Message")
+            r.require(any(x[0] == "agg" and x[1] == message_adt(p) for x in walk(s.arg(0))), "serializes-the-message", fn=f, detail="serialized value is the Message")
 
     with ctx.rule("J3", "field table", cfg) as r:
-        sers = [g for g in p.fns.values() if g.path.startswith("encode::json::_::<impl serde_core::ser::Serialize for encode::json::Message") and g.path.endswith(">::serialize") and "__SerializeWith" not in g.path]
+        sers = [g for g in p.fns.values() if g.path.startswith("encode::json::_::<impl serde_core::ser::Serialize for %s" % message_adt(p)) and g.path.endswith(">::serialize") and "__SerializeWith" not in g.path]
         if len(sers) != 1:
             raise AnchorMissing("derived Serialize for Message not found (%s)" % [g.path for g in sers])
         g = sers[0]
@@ -123,7 +135,7 @@ def run_cfg(ctx, p, cfg):
                 r.require(okv, "value-is-own-field:%s" % k, fn=g, detail="serialize_field(%r, &self.%s): %s" % (k, k, show(v, 4)))
         # aggregate provenance
         f = inner_fn(p)
-        aggs = [a for a in p.aggregates(MESSAGE) if a[0] is f]
+        aggs = [a for a in p.aggregates(message_adt(p)) if a[0] is f]
         e = f._rvalue(aggs[0][3], frozenset(), 30, aggs[0][1])
         fd = dict(e[3])
         for k, acc in ACCESSORS.items():
